@@ -280,6 +280,11 @@ def posoargs(end=None, *posoarg_names):
 def _posoargs_end(end, _posoargs, func, *args, **kwargs):
     posoarg_names = set(_posoargs)
     found = False
+    original = kwargs.get('original')
+    if isinstance(original, _PokTranslator):
+        # re-created for a bound version of original.func: when binding
+        # consumed the parameter the selection ends at, nothing is left of it
+        found = end in _consumed_by_binding(original.func, func)
     sig = _specifiers.forged_signature(func, auto=False).parameters.values()
     for param in sig:
         if param.kind == param.POSITIONAL_OR_KEYWORD:
